@@ -28,6 +28,7 @@ EXPLANATION = (
     "Network.disconnect reaches every node's PdoMap.stop; R6 PeriodicMessageTask.update replaces the message data on "
     "every path before either branch, the fallback branch stops before restarting; R7 arguments of the four "
     "send_periodic calls are the producer's own id, payload and period; R8 structural assumptions shared by all properties: no class-level mutable object is mutated in place by instances, no method re-runs the constructor, logging statements cannot raise (typed eager formatting, divisions), no mutable default argument is kept or mutated, no new truth-value test of a None-able number, a look-up memory the pinned tree does not have is keyed by all its inputs (arithmetic keys folded over a grid of addresses) and, on the serving side, emptied somewhere."
+    " R6 also: the stop before a restart may be PeriodicMessageTask._start's own."
 )
 ASSUMPTIONS = [
     "not decided: periods and payload values at run time, python-can's cyclic task behaviour",
